@@ -295,6 +295,10 @@ func stateInAnnotationObjectKey(s *Scanner, c byte) state {
 	case bytes.IsSpace(c):
 		s.step = stateInAnnotationObjectKeyAfter
 
+	case s.annotation == annotationMultiLine && bytes.IsNewLine(c):
+		// A line break between the rule name and the colon, as after a quoted name.
+		return stateEndValue(s, c)
+
 	case c < 0x20 || (c == '"' || bytes.IsNewLine(c)):
 		panic(s.newDocumentError(errors.ErrInvalidCharacterInAnnotationObjectKey, c))
 	}
@@ -308,6 +312,9 @@ func stateInAnnotationObjectKeyAfter(s *Scanner, c byte) state {
 
 	case bytes.IsSpace(c):
 		return scanContinue
+
+	case s.annotation == annotationMultiLine && bytes.IsNewLine(c):
+		return stateEndValue(s, c)
 	}
 	panic(s.newDocumentError(errors.ErrInvalidCharacterInAnnotationObjectKey, c))
 }
